@@ -303,6 +303,28 @@ def pipeline(ctx):
                 ob.refute("history-width:%s:%d" % (ext, ph), "phase %d's overlap window [%d,%d) does not fit the %d-bit history signal %s: the slice is "
                           "clipped silently and a command overlapping a command issued on the previous phases is no longer suppressed" %
                           (ph, exp[0], exp[1], bw, key(base)), ins[0].loc)
+        if ext:
+            # the refined history: bit i is "really sent" = valid and no really-sent command on the span-1 phases before it (same window as the mask)
+            nref = 0
+            for l in v.leaves:
+                if l.inst != "" or l.kind != "assign" or not (isinstance(l.target, Op) and l.target.op == "index" and isinstance(l.target.args[1], Const)):
+                    continue
+                hb = l.target.args[0]
+                i_ = l.target.args[1].v
+                sl = [t for t in subterms(l.value) if isinstance(t, Op) and t.op == "slice" and t.args[0] is hb and isinstance(t.args[1], Const) and isinstance(t.args[2], Const)]
+                if not sl:
+                    continue
+                nref += 1
+                got_w = (sl[0].args[1].v, sl[0].args[2].v)
+                exp_w = (max(0, i_ - (span - 1)), i_)
+                if i_ in (0, 4, 15):
+                    ob.instance("ext=True refined history bit %d" % i_, {"window": got_w, "expected": exp_w})
+                if got_w != exp_w:
+                    ob.refute("refined-window:%d" % i_, "extended overlap check: history bit %d is cleared by really-sent commands on bits [%d,%d), expected [%d,%d) (the %d "
+                              "previous phases): a command exactly %d phases after a sent one is marked as not sent although it is, so a following command is "
+                              "OR-ed on top of it" % (i_, got_w[0], got_w[1], exp_w[0], exp_w[1], span - 1, span), l.loc)
+            if nref < 2 * nph:
+                ob.unknown("ext=True: refined history definition found for %d of %d bits" % (nref, 2 * nph))
         ca_bs = [o for o in slips if o not in cs_bs and any(l.kind == "assign" and key(l.target) == str(o) + ".i" and ".ca" in key(l.value) for l in v.leaves)]
         if ob.need(len(ca_bs) == nph * 6, "ext=%s: expected %d CA bit-slips, found %d" % (ext, nph * 6, len(ca_bs))):
             for idx, o in enumerate(ca_bs):
